@@ -246,6 +246,7 @@ func init() {
 		cfg.NamedLoops = true
 		cs = append(cs, extremeCases(st, "x")...)
 		cs = append(cs, declOrderCases(r, st, sizes(tier, 300, 4000))...)
+		cs = append(cs, shadowCases(st)...)
 		return append(cs, withNameCases(r, st, sizes(tier, 400, 8000))...)
 	}
 	propGens["C09"] = func(r *rand.Rand, tier string, st *Stats) []Case {
@@ -258,6 +259,7 @@ func init() {
 		cs := searchCases(r, st, sizes(tier, 2000, 40000), cfg, 5, 10, "g")
 		cs = append(cs, viaFileClones(r, st, cs, 11)...)
 		cs = append(cs, extremeCases(st, "x")...)
+		cs = append(cs, shadowCases(st)...)
 		return append(cs, bigTextCases(r, st, sizes(tier, 20, 200), "big")...)
 	}
 }
@@ -385,6 +387,35 @@ func declOrderCases(r *rand.Rand, st *Stats, n int) []Case {
 		st.Features[fmt.Sprintf("decl-order-shape-%d", shape)]++
 		text := texts[r.Intn(len(texts))]
 		out = append(out, Case{ID: fmt.Sprintf("do%d", i), Op: "run", Fields: []string{hx(src), hx(text)}, Meta: map[string]string{}})
+	}
+	return out
+}
+
+// shadowCases: a capture (always / sometimes bound) that carries the name of a value the engine defines itself for
+// process code and with lists, read by a transform in operations that only one type allows, and named in the with list.
+// Exhaustive over names x bodies x transform bodies x with lists; two texts each.
+func shadowCases(st *Stats) []Case {
+	bodies := []string{"(at least 1 digit) = NAME", "'a' maybe ('b' = NAME)", "(letter = NAME) or digit"}
+	tbodies := []string{"return match - NAME", "return NAME - 1", "return NAME + 'x'", "return match * NAME",
+		"if NAME == '' then return 'e' end return NAME", "set q to NAME * 2 return q + matchNumber"}
+	withs := []string{"t", "NAME", "t NAME ':' t"}
+	texts := []string{"a ab a 12 7", "b3 ab"}
+	out := []Case{}
+	i := 0
+	for _, nm := range builtinNames {
+		for _, b := range bodies {
+			for _, tb := range tbodies {
+				for _, w := range withs {
+					src := "set t to transform\n  " + strings.ReplaceAll(tb, "NAME", nm) + "\nend\nreplace all " +
+						strings.ReplaceAll(b, "NAME", nm) + " with " + strings.ReplaceAll(w, "NAME", nm)
+					for _, text := range texts {
+						i++
+						st.Features["capture-shadows-builtin-template"]++
+						out = append(out, Case{ID: fmt.Sprintf("sh%d", i), Op: "run", Fields: []string{hx(src), hx(text)}, Meta: map[string]string{}})
+					}
+				}
+			}
+		}
 	}
 	return out
 }
